@@ -359,6 +359,39 @@ pub fn c19() -> Outcome {
             Err(_) => fail!(n, d, "malformed QPLIB text caused a panic instead of an error ({name}):\n{text}"),
         }
     }
+    // premature end of file at EVERY line boundary (all sections, the closing name sections included): each proper prefix is an error carrying the last line read
+    for good in [render_qp(&qps()[119], true), render_qp(&qps()[119], false), render_qp(&qps()[3], false)] {
+        let lines: Vec<&str> = good.lines().collect();
+        for k in 0..lines.len() {
+            n += 1; d.insert((2000 + k, lines.len() % 2 == 0));
+            let text: String = lines[..k].iter().map(|l| format!("{l}\n")).collect();
+            match std::panic::catch_unwind(std::panic::AssertUnwindSafe(|| load(&text))) {
+                Ok(Err(e)) => {
+                    let got: Option<usize> = e.rfind("at line ").and_then(|p| e[p + 8..].trim_end_matches(')').trim().parse().ok());
+                    if got != Some(k) { fail!(n, d, "a file cut after line {k} of {} is rejected with line {got:?} (the last line read is {k}): {e}\n--- text ---\n{text}", lines.len()); }
+                }
+                Ok(Ok(_)) => fail!(n, d, "a QPLIB file cut after line {k} of {} (premature end of file) was accepted:\n{text}", lines.len()),
+                Err(_) => fail!(n, d, "a QPLIB file cut after line {k} of {} caused a panic instead of an error", lines.len()),
+            }
+        }
+        // malformed counts / indices in the closing name sections
+        let nl = lines.len();
+        let vn = (0..nl).rev().find(|k| lines[*k].split_whitespace().count() == 2 && lines[*k].split_whitespace().next().map(|w| w.parse::<usize>().is_ok()) == Some(true) && lines[*k].split_whitespace().nth(1).map(|w| w.parse::<f64>().is_err()) == Some(true));
+        let mut muts: Vec<(String, usize, String)> = vec![];
+        muts.push(("constraint-name count is not a number".to_string(), nl, { let mut l: Vec<String> = lines.iter().map(|x| x.to_string()).collect(); l[nl - 1] = "zero".to_string(); l.join("\n") + "\n" }));
+        if let Some(k) = vn {
+            muts.push(("malformed index in a variable-name row".to_string(), k + 1, { let mut l: Vec<String> = lines.iter().map(|x| x.to_string()).collect(); l[k] = format!("x{}", l[k]); l.join("\n") + "\n" }));
+        }
+        for (name, want, text) in muts {
+            n += 1; d.insert((3000 + want, nl % 2 == 0));
+            match std::panic::catch_unwind(std::panic::AssertUnwindSafe(|| load(&text))) {
+                Ok(Err(e)) => { let got: Option<usize> = e.rfind("at line ").and_then(|p| e[p + 8..].trim_end_matches(')').trim().parse().ok());
+                    if got != Some(want) { fail!(n, d, "error for '{name}' carries line {got:?}, the offending line of the file is {want}: {e}\n--- text ---\n{text}"); } }
+                Ok(Ok(_)) => fail!(n, d, "malformed QPLIB text accepted ({name}):\n{text}"),
+                Err(_) => fail!(n, d, "malformed QPLIB text caused a panic instead of an error ({name})"),
+            }
+        }
+    }
     Outcome { cases: n, distinct: d.len(), fail: None }
 }
 
